@@ -17,7 +17,8 @@
 (* object of that name is served and stays served is a *stale-timer probe*:*)
 (* exactly the situations in which a stale entry would remove a successor. *)
 (* Emit prints one shortest program per such transition (tag "stale") and  *)
-(* per sweep that expires something (tag "expiry").                        *)
+(* per sweep that expires something (tag "expiry"), and per EXPIRE /       *)
+(* PERSIST of an object that is past its deadline but not swept ("limbo"). *)
 (*                                                                         *)
 (* SimSpec (tlc -simulate): long random programs, printed once at the end. *)
 (***************************************************************************)
@@ -65,6 +66,12 @@ StaleProbe == /\ ev'.a = "sweep"
               /\ \/ \E e \in old : e.hi <= now /\ st.cols[e.k][e.i].p /\ st'.cols[e.k][e.i].p
                  \/ \E e \in hold : e.hi <= now /\ st.hooks[e.nm].p /\ st'.hooks[e.nm].p
 Expiry == ev'.a = "sweep" /\ (ev'.rem # {} \/ ev'.hrem # {})
+\* EXPIRE / PERSIST reaches an object whose deadline has passed but which the sweeper has not removed yet: it is
+\* still served and the command succeeds (the copies - follower, restart - must end up with the object too)
+Limbo == /\ Len(hist') = Len(hist) + 1
+         /\ LET c == hist'[Len(hist')]
+                o == IF c.op \in {"expire", "persist"} THEN st.cols[c.k][c.i] ELSE NoObj
+            IN o.p /\ o.x /\ o.hi < now
 
 \* The probe comes MarginA after the last command and after every deadline that falls within Horizon of it, so
 \* that those expiries are part of the run.  What is served at the probe instant q:
@@ -95,6 +102,7 @@ Program(tag, h, S, t, ph) == [tag |-> tag, phase |-> ph, racy |-> Racy(h), h |->
 \* (no disjunction in the printing part: TLC would evaluate PrintT of both branches)
 Emit == [][IF StaleProbe THEN PrintT(<<"TR", ToJson(Program("stale", hist', st', now', due' - now'))>>)
            ELSE IF Expiry THEN PrintT(<<"TR", ToJson(Program("expiry", hist', st', now', due' - now'))>>)
+           ELSE IF Limbo THEN PrintT(<<"TR", ToJson(Program("limbo", hist', st', now', due' - now'))>>)
            ELSE TRUE]_gvars
 
 =============================================================================
